@@ -2,9 +2,9 @@
 the cycle report, for every graph, with termination; (2) BOUNDED stand-in (not a proof): run-time-checked contracts on the real
 ModuleGraph operations.
 
-No deductive back end reaches these functions (Kani does not terminate on hashbrown's probe loops - a 2-node tsort ran
-25 min without result; Verus rejects `iter().find(closure)`, `for x in set.iter()`, `iter_mut()`, `retain(closure)`, which is
-what these functions consist of). The contracts are therefore executable predicates (replay/src/c21.rs) over an abstract view
+ModuleGraph::get_node / depends_on / add_node_if_none / remove are under contract in a second Verus unit (units/C21/graph.py).
+No deductive back end reaches the others (Kani does not terminate on hashbrown's probe loops - a 2-node tsort ran 25 min without
+result; Verus rejects `&mut` out of an Option::map closure, recursion inside `any(closure)`, insert + retain in one iter_mut body). The contracts are therefore executable predicates (replay/src/c21.rs) over an abstract view
 (vertex set, edge set) and are checked after EVERY operation of EVERY operation sequence up to a stated length."""
 import json
 import os
